@@ -98,12 +98,16 @@ units.append(emit_unit("comp.emit.ssu", "h_emit_ssu", ["janetc_emit_ssu", "emit2
                        [M("second-operand-uses-first-tag", "    int32_t reg2 = janetc_regnear(c, s2, JANETC_REGTEMP_1);\n    int32_t label = janet_v_count(c->buffer);\n    janetc_emit(c, op | (reg1 << 8) | (reg2 << 16) | ((uint32_t)rest << 24));",
                           "    int32_t reg2 = janetc_regnear(c, s2, JANETC_REGTEMP_0);\n    int32_t label = janet_v_count(c->buffer);\n    janetc_emit(c, op | (reg1 << 8) | (reg2 << 16) | ((uint32_t)rest << 24));", "requested only while"),
                         M_MOVEDIR, M_UPFIELDS], props=("C02", "C15")))
-units.append(emit_unit("comp.emit.sss", "h_emit_sss", ["janetc_emit_sss"] + HELPERS,
-                       "janetc_emit_sss (op | A | B | C; arithmetic, comparison, GET, IN, PUT, PUSH_3, ...): " + ABCF,
-                       [M("operands-2-3-swapped", "janetc_emit(c, op | (reg1 << 8) | (reg2 << 16) | ((uint32_t)reg3 << 24));", "janetc_emit(c, op | (reg1 << 8) | (reg3 << 16) | ((uint32_t)reg2 << 24));", "source operand"),
-                        M("third-temporary-not-released", "    janetc_free_regnear(c, s3, reg3, JANETC_REGTEMP_2);\n", "", "tag is released"),
-                        M("moveback-dropped", "    janetc_free_regnear(c, s3, reg3, JANETC_REGTEMP_2);\n    if (wr)\n        janetc_moveback(c, s1, reg1);", "    janetc_free_regnear(c, s3, reg3, JANETC_REGTEMP_2);", "reaches the destination"),
-                        M_FREEWRONG], props=("C02", "C15"), timeout=600))
+SSS_MUT = [M("operands-2-3-swapped", "janetc_emit(c, op | (reg1 << 8) | (reg2 << 16) | ((uint32_t)reg3 << 24));", "janetc_emit(c, op | (reg1 << 8) | (reg3 << 16) | ((uint32_t)reg2 << 24));", "source operand"),
+           M("third-temporary-not-released", "    janetc_free_regnear(c, s3, reg3, JANETC_REGTEMP_2);\n", "", "tag is released"),
+           M("moveback-dropped", "    janetc_free_regnear(c, s3, reg3, JANETC_REGTEMP_2);\n    if (wr)\n        janetc_moveback(c, s1, reg1);", "    janetc_free_regnear(c, s3, reg3, JANETC_REGTEMP_2);", "reaches the destination"),
+           M_FREEWRONG]
+units.append(emit_unit("comp.emit.sss.read", "h_emit_sss", ["janetc_emit_sss"] + HELPERS,
+                       "janetc_emit_sss with three source operands (wr = 0: PUT, PUSH_3, ...): " + ABCF,
+                       [SSS_MUT[0], SSS_MUT[1], SSS_MUT[3]], props=("C02", "C15"), defines=["-DEM_FIX_WR=0"], timeout=600))
+units.append(emit_unit("comp.emit.sss.write", "h_emit_sss", ["janetc_emit_sss"] + HELPERS,
+                       "janetc_emit_sss with a written first operand (wr = 1: arithmetic, comparison, GET, IN, NEXT, ...): " + ABCF,
+                       SSS_MUT, props=("C02", "C15"), defines=["-DEM_FIX_WR=1"], timeout=600))
 
 
 # ---------------------------------------------------------------- janetc_copy and the helpers one by one
@@ -190,8 +194,9 @@ units.append(emit_unit("comp.emit.release.s", "h_emit_s", ["janetc_emit_s"] + HE
 units.append(emit_unit("comp.emit.release.ss", "h_emit_ss", ["janetc_emit_ss"] + HELPERS, "janetc_emit_ss: " + REL,
                        [M("free-dropped", "    janetc_free_regnear(c, s2, reg2, JANETC_REGTEMP_1);\n    if (wr)\n        janetc_moveback(c, s1, reg1);\n    janetc_free_regnear(c, s1, reg1, JANETC_REGTEMP_0);\n    return label;\n}\n\nint32_t janetc_emit_ssi(",
                           "    if (wr)\n        janetc_moveback(c, s1, reg1);\n    janetc_free_regnear(c, s1, reg1, JANETC_REGTEMP_0);\n    return label;\n}\n\nint32_t janetc_emit_ssi(", "given back")], defines=["-DEM_CHECK_RELEASE"]))
-units.append(emit_unit("comp.emit.release.sss", "h_emit_sss", ["janetc_emit_sss"] + HELPERS, "janetc_emit_sss (and, by the same helpers, _si/_su/_ssi/_ssu): " + REL,
-                       [M("free-dropped", "    janetc_free_regnear(c, s3, reg3, JANETC_REGTEMP_2);\n", "", "given back|tag is released")], defines=["-DEM_CHECK_RELEASE"], timeout=600))
+for w in (0, 1):
+    units.append(emit_unit("comp.emit.release.sss.wr%d" % w, "h_emit_sss", ["janetc_emit_sss"] + HELPERS, "janetc_emit_sss, wr = %d (and, by the same helpers, _si/_su/_ssi/_ssu): " % w + REL,
+                           [M("free-dropped", "    janetc_free_regnear(c, s3, reg3, JANETC_REGTEMP_2);\n", "", "given back|tag is released")], defines=["-DEM_CHECK_RELEASE", "-DEM_FIX_WR=%d" % w], timeout=600))
 units.append(emit_unit("comp.emit.upvalue-range", "h_emit_ss", ["janetc_emit_ss"] + HELPERS,
                        "upvalue operands whose index or environment index exceeds the 8-bit fields of LOAD_UPVALUE / SET_UPVALUE (a captured local beyond register 255, "
                        "more than 256 captured environments) are still read and written correctly, or a compile error is reported: " + ABCF,
